@@ -39,3 +39,16 @@ def _explained(d, known_sigs):
 
 
 ENTRY["diff_explained_by_known"] = _explained
+
+# Fourth session: the fetcher (core/fetcher/fetcher.go, one of C18's anchors and the first hop of the pipeline of C01) is
+# modelled: Model/Fetcher.lean, theorems Props/C18Fetch.lean, stream fetcher (real fetcher.New over a scripted beacon client,
+# scripted aggsigdb / dutydb inputs, recording and hostile subscribers). The one finding of that work (the early-fetch cache
+# kept the beacon client's checkpoints, D-18) is repaired in /repo (fix 4a0b07d); the line driver runs the repaired variant.
+from vlib import snippet_C18fetch as _ft
+ENTRY["streams"] = ENTRY["streams"] + [_ft.STREAM]
+ENTRY.setdefault("lean_props_extra", []).append(_ft.EXTRA_LEAN)
+if ENTRY.get("monitor_sigs"):
+    ENTRY["monitor_sigs"] = ENTRY["monitor_sigs"] + _ft.MONITOR_SIGS
+ENTRY["trusted_base"] = ENTRY["trusted_base"] + _ft.TRUSTED_BASE
+ENTRY["assumptions"] = ENTRY["assumptions"] + _ft.ASSUMPTIONS
+ENTRY["level_text"] += _ft.LEVEL_TEXT
